@@ -17,6 +17,7 @@ Independently of the model, no line may make the parser panic or leave the proce
 exception (first word `sudo`, KNOWN_FINDINGS F15) is reported as KNOWN-FINDING."""
 import itertools, os, random, re, subprocess
 from concurrent.futures import ThreadPoolExecutor
+import core
 from core import log, REPO, NPROC
 
 ASSUMPTIONS = [
@@ -30,7 +31,16 @@ ASSUMPTIONS = [
 ]
 
 ALPHABET = "+-#xob0179afg^r_"
-KNOWN_SUDO = "sudo exits the debugger process (easter egg in name.rs)"
+def _known_sudo():
+    """The entry of the committed KNOWN_FINDINGS.json that covers `sudo`, or None when the file does not list it
+    (then the exit is an ordinary violation)."""
+    for f in core.load_known():
+        if f.get("status") == "known" and f.get("property") == "C14" and f.get("match", {}).get("first_word") == "sudo":
+            return f["entry"]
+    return None
+
+
+KNOWN_SUDO = _known_sudo()
 PACK = 400
 
 # argument position kinds: template with one hole
@@ -235,7 +245,7 @@ def check_lines(ctx, lines, tags, profile, stats, violations, known_hits, vkeys,
             ka = la.split()[:1]
             if ka in (["2"], ["3"]):
                 # the property itself: no line may panic or leave the process
-                if ka == ["3"] and la == "3 0" and lb == "3 0" and first_word(line) == "sudo":
+                if KNOWN_SUDO and ka == ["3"] and la == "3 0" and lb == "3 0" and first_word(line) == "sudo":
                     if line == "sudo" and KNOWN_SUDO not in known_hits:
                         known_hits.append(KNOWN_SUDO)
                     stats["known_sudo"] += 1
